@@ -697,9 +697,12 @@ Section Exact.
     { intros Hc. apply Hne. rewrite <- Hx0.
       assert (Hxv : In x (var_ids G)) by (eapply zlookup_keys; eauto).
       replace (s0 x) with (s' x) by (unfold s'; apply zmem_In in Hxc; now rewrite Hxc).
-      rewrite <- (nth_index_map s' x (var_ids G) Hxv). rewrite Hc. reflexivity. }
+      rewrite <- (nth_index_map s' x (var_ids G) Hxv).
+      transitivity (nth (index_of x (var_ids G)) a 0); [f_equal; exact Hc | reflexivity]. }
     specialize (Huniq _ (valid_to_list s' Hv') Hnea).
-    rewrite <- Hmap in Huniq at 1 2. rewrite !total_cost_own in Huniq.
-    destruct mx; simpl in Hord; apply (Qlt_not_le _ _ Huniq); exact Hord.
+    assert (Hta : (total_cost G a == tot ss)%Q) by (rewrite <- Hmap at 1; apply total_cost_own).
+    pose proof (total_cost_own s') as Hts. revert Hord Huniq.
+    destruct (p_max P); simpl; intros Hord Huniq; rewrite Hta, Hts in Huniq;
+      apply (Qlt_not_le _ _ Huniq); exact Hord.
   Qed.
 End Exact.
